@@ -436,6 +436,12 @@ class Executor:
             sb.assume(z3.And(k >= 0, k < n))
             iv = lo + k * step
             sb.env[var] = iv
+            # variables declared by the contract as carried from one iteration to the next although they are first bound inside
+            # the loop: bound at the head of every iteration but the first (checked at the end of every path through the body)
+            carried = getattr(ctx.contract, 'loop_carried', {}).get(key, {})
+            for nm, mk in carried.items():
+                if nm not in sb.env:
+                    sb.env[nm] = ('maybe-unbound', k > 0, mk(sb))
             for lbl, g in inv(View(sb, self), iv, k):
                 sb.assume(g)
             start_pc = list(sb.pc)
@@ -444,6 +450,12 @@ class Executor:
             for o in body_outs:
                 if o.kind == 'normal':
                     o.state.env[var] = iv + step
+                    for nm in carried:
+                        v_ = o.state.env.get(nm)
+                        if isinstance(v_, tuple) and len(v_) == 3 and v_[0] == 'maybe-unbound':
+                            ctx.oblige(o.state, 'loop-carried-variable-bound[%s]' % nm, node.lineno, v_[1], 'declared as carried to the next iteration')
+                        elif v_ is None:
+                            ctx.oblige(o.state, 'loop-carried-variable-bound[%s]' % nm, node.lineno, z3.BoolVal(False), 'declared as carried to the next iteration')
                     for lbl, g in inv(View(o.state, self), iv + step, k + 1):
                         ctx.oblige(o.state, 'inv-pres[%s]:%s' % (key, lbl), node.lineno, g)
                 elif o.kind in ('return', 'raise'):
@@ -459,10 +471,40 @@ class Executor:
             def _mu(x):
                 return isinstance(x, tuple) and len(x) == 3 and x[0] == 'maybe-unbound'
             done_mu = set()
+            normal_envs = [o.state.env for o in body_outs if o.kind == 'normal']
+
+            def _binds(env_, nm):
+                return nm in env_ and not _mu(env_[nm])
+            # a name bound on some but not all paths of an arbitrary iteration (e.g. only in the branch of the last index): it is
+            # bound after the loop if every path of the *last* iteration binds it (the body is executed once more for k = n - 1)
+            partial = {nm for e_ in normal_envs for nm in e_ if nm != var and (nm not in state.env or _mu(state.env.get(nm))) and _binds(e_, nm)
+                       and not all(_binds(e2, nm) for e2 in normal_envs)}
+            last_binds = set()
+            if partial:
+                sl = state.clone()
+                self.havoc(node.body, sl, extra=[var])
+                self.havoc_mark(sl, state)
+                sl.assume(n > 0)
+                il = lo + (n - 1) * step
+                sl.env[var] = il
+                for nm, mk in carried.items():
+                    if nm not in sl.env:
+                        sl.env[nm] = ('maybe-unbound', n - 1 > 0, mk(sl))
+                for lbl, g in inv(View(sl, self), il, n - 1):
+                    sl.assume(g)
+                was = ctx.muted
+                ctx.muted = True
+                try:
+                    louts = [o for o in self.exec_block(node.body, sl) if o.kind == 'normal']
+                finally:
+                    ctx.muted = was
+                last_binds = {nm for nm in partial if louts and all(_binds(o.state.env, nm) for o in louts)}
             for o in body_outs:
                 if o.kind == 'normal':
                     for nm, val in o.state.env.items():
                         pre = state.env.get(nm)
+                        if nm in partial and nm not in last_binds:
+                            continue        # may be unbound after the loop: a later read is rejected (unknown name)
                         if nm != var and nm not in done_mu and (nm not in state.env or _mu(pre)) and not _mu(val):
                             done_mu.add(nm)
                             self._rebound = {nm}
@@ -471,6 +513,9 @@ class Executor:
                                 sa.env[nm] = ('maybe-unbound', cond, self.havoc_value(val, sa, nm))
                             finally:
                                 self._rebound = ()
+            for nm, mk in carried.items():
+                if nm not in state.env:
+                    sa.env[nm] = ('maybe-unbound', n > 0, mk(sa))
             for lbl, g in inv(View(sa, self), lo + n * step, n):
                 sa.assume(g)
             # python leaves the loop variable at its last value (if any iteration ran); it is rarely used: havoc it
